@@ -14,7 +14,7 @@ def run(tier, seed):
     ck.out_of_scope('interpreter hash seeds other than the listed ones (2 in the quick tier, 5 in the thorough tier)', 'workbook files other than the two harness workbooks', 'whole-column references inside workbooks', 'workbooks outside the three template families')
     quick = tier == 'quick'
     hs, batch = [], Batch()
-    T = 170 if quick else 900
+    T = 400 if quick else 900
     try:
         src = open(os.path.join(ROOT, 'harness', 'c03_kernels.py')).read()
         h = Harness(ck, 'c03_kernels', src); hs.append(h)
